@@ -310,6 +310,18 @@ func (c *Client) sendRecv(tm message, rm message) error {
 	err := send(c.log, c.conn, tag(t), tm)
 	c.sendMu.Unlock()
 	if err != nil {
+		// The request never went out, so no response will clear the
+		// pending entry. Remove it (and anything an error broadcast has
+		// already queued for us) before resp goes back to the pool;
+		// otherwise a later broadcast finds two tags sharing a recycled
+		// response and blocks forever on its 1-slot channel.
+		c.pendingMu.Lock()
+		delete(c.pending, tag(t))
+		c.pendingMu.Unlock()
+		select {
+		case <-resp.done:
+		default:
+		}
 		return fmt.Errorf("send: %w", err)
 	}
 
